@@ -232,7 +232,7 @@ def evaluate(mod, cases, jobs=None):
             raise Infra(f"driver error: {rep['error']} on {canon(r['in'])[:300]}")
         cmpf = getattr(mod, "agree", None)
         ag = cmpf(r, rep) if cmpf else canon(rep["model"]) == canon(r["obs"])
-        results.append({"req": r, "model": rep["model"], "agree": ag, "holds": rep["holds"], "info": rep.get("info")})
+        results.append({"req": r, "model": rep["model"], "agree": ag, "holds": rep["holds"], "info": rep.get("info"), "hyp": rep.get("hyp")})
     return results, {"impl_s": round(t1 - t0, 2), "model_s": round(t2 - t1, 2)}
 
 
@@ -392,6 +392,8 @@ def _run(mod, pid, a, seed, t0):
             tags[t] = tags.get(t, 0) + 1
         if r["req"].get("nontrivial"):
             nontriv.add(hashlib.sha1(canon(r["req"]["in"]).encode()).hexdigest())
+    hyp_met = sum(1 for r in results if r.get("hyp") is True)
+    hyp_not = sum(1 for r in results if r.get("hyp") is False)
     samples = [{"op": r["req"]["op"], "in": r["req"]["in"], "obs": r["req"]["obs"]} for r in results[ncorpus:ncorpus + 2]]
     for s in samples:
         if len(canon(s)) > 3000:
@@ -434,6 +436,8 @@ def _run(mod, pid, a, seed, t0):
                                "disagreements": len(diffs), "property_failures": len(fails),
                                "known_finding_hits": len(known), "search_evaluations": searched, **timing},
             "distribution": dict(sorted(tags.items())),
+            "main_theorem_hypotheses": {"met": hyp_met, "not_met": hyp_not,
+                                        "note": "inputs on which the decidable well-formedness certificate of the property's main theorem was checked by the driver (where the driver reports it)"},
             "exhaustive": bool(getattr(mod, "EXHAUSTIVE", False)),
         },
         "assumptions": getattr(mod, "ASSUMED", []),
